@@ -147,7 +147,7 @@ func DBCSSafeTrim(str []byte) (newStr []byte) {
 func DBCSStatus(str []byte, pos int) (status DBCSStatus_t) {
 	status = DBCS_ASCII
 
-	for ; pos >= 0; pos-- {
+	for ; pos >= 0 && len(str) > 0; pos-- {
 		c := str[0]
 		str = str[1:]
 		status = DBCSNextStatus(c, status)
